@@ -192,7 +192,11 @@ func walkPathK(t *testing.T, g *Graph, seed int64, path []Edge, known []knownFin
 				return
 			}
 			steps++
-			if ms := sys.Check(e, obs); len(ms) > 0 {
+			ms := sys.Check(e, obs)
+			if f, ok := sys.(interface{ Finish(func()) []Mismatch }); ok && i == len(path)-1 && len(ms) == 0 {
+				ms = f.Finish(synctest.Wait) // end-of-path obligations (teardown, drain)
+			}
+			if len(ms) > 0 {
 				if id := matchKnown(known, ms, e.A); id != "" {
 					knownHits[id]++ // a listed finding whose effect the harness has undone: go on
 
